@@ -31,6 +31,8 @@ RAC = {
     'paragraph_independence': dict(crate=CORE, attach=S + 'linting/lint_group.rs', file='paragraphs.rs', test='rac_paragraph_independence', needs_corpus=True, function='LintGroup::lint over Document::new (whole pipeline, relational)'),
     'spell_check': dict(crate=CORE, attach=S + 'linting/spell_check.rs', file='spell_check.rs', test='rac_spell_check', function='SpellCheck::lint + Document::parse (dictionary metadata) + suggest_correct_spelling'),
     'wasm_api': dict(crate='harper-wasm', attach='harper-wasm/src/lib.rs', file='wasm_api.rs', test='rac_wasm_api', function='harper_wasm::Linter::{lint, apply_suggestion, ignore_lint, export/import_ignored_lints, import/export_words, set_lint_config_from_json}, to_title_case, to_json/from_json'),
+    'mask_merge': dict(crate=CORE, attach=S + 'mask/mod.rs', file='mask.rs', test='rac_mask_merge', function='Mask::merge_whitespace_sep'),
+    'prose_offsets': dict(crate='harper-comments', attach='harper-comments/src/comment_parser.rs', file='prose_offsets.rs', test='rac_prose_offsets', function='CommentParser::parse (tree-sitter mask + comment parsers) and Markdown::parse: prose words at their true offsets'),
     'typst_frontend': dict(crate='harper-typst', attach='harper-typst/src/lib.rs', file='typst.rs', test='rac_typst_frontend', function='Typst parser (typst_translator, offset_cursor)'),
 }
 # Verus piece name -> runtime contract checks that exercise the same clause on the real code
@@ -61,13 +63,18 @@ for _f in ('lex_escaped', 'lex_uchar', 'lex_xchar', 'lex_xchar_string', 'is_xcha
 
 RAC_FOR_FUNCTION['Mask::push_allowed'] = ['mask_push']
 RAC_FOR_FUNCTION['Mask::new_blank'] = ['mask_push']
+RAC_FOR_FUNCTION['Mask::merge_whitespace_sep'] = ['mask_merge']
+RAC_FOR_FUNCTION['Mask::parse'] = ['comment_frontends', 'lhs_frontend']
+RAC_FOR_FUNCTION['lemma_append_shifted'] = ['comment_frontends', 'lhs_frontend']
+RAC_FOR_FUNCTION['lemma_merge_step'] = ['mask_merge']
 for _f in ('CorrectNumberSuffix::lint', 'NumberSuffix::from_chars', 'NumberSuffix::to_chars'):
     RAC_FOR_FUNCTION[_f] = ['number_suffix_rule']
 RAC_FOR_FUNCTION['parse_inline_tag'] = ['comment_frontends']
 RAC_FOR_FUNCTION['lex_ip_schemepart'] = ['url_scanner', 'lexers']
 
 UNIT_RAC = {
-    'mask': ['mask_push'],
+    'mask': ['mask_push', 'mask_merge'],
+    'mask_parser': ['comment_frontends', 'lhs_frontend'],
     'number': ['number_suffix_rule'],
     'number_lint': ['number_suffix_rule'],
     'jsdoc': ['comment_frontends'],
